@@ -25,6 +25,31 @@ type DeadlineScenario struct {
 	Endpoints  []string
 	DeadlineMS int
 	SlowMS     int
+	// PerTryMS: the configured per-try timeout (0 = 60 s, i.e. never reached)
+	PerTryMS int
+}
+
+// stallWatch measures the longest gap between 50 ms ticks while a scenario runs: a machine that
+// stood still for seconds makes elapsed times meaningless.
+func stallWatch(stop <-chan struct{}) <-chan time.Duration {
+	res := make(chan time.Duration, 1)
+	go func() {
+		var worst time.Duration
+		last := time.Now()
+		for {
+			select {
+			case <-stop:
+				res <- worst
+				return
+			case <-time.After(50 * time.Millisecond):
+				if g := time.Since(last); g > worst {
+					worst = g
+				}
+				last = time.Now()
+			}
+		}
+	}()
+	return res
 }
 
 func deadlineOne(sc DeadlineScenario) error {
@@ -46,8 +71,18 @@ func deadlineOne(sc DeadlineScenario) error {
 	}
 	defer g.Stop()
 	f := vh.Farm()
+	perTry := 60 * time.Second
+	hangs := 0
+	if sc.PerTryMS > 0 {
+		perTry = time.Duration(sc.PerTryMS) * time.Millisecond
+		for i, b := range sc.Endpoints {
+			if b == "hang" && (signing < 0 || i < signing) {
+				hangs++
+			}
+		}
+	}
 	signer, err := vh.NewCrypkiSigner(crypki.SignerConfig{TLSClientKeyFile: f.ClientKeyFile(), TLSClientCertFile: f.ClientCertFile(), TLSCACertFiles: []string{f.CAFile("caA")},
-		CrypkiEndpoints: ips, CrypkiPort: uint(g.Port), Retries: 1, PerTryTimeout: 60 * time.Second}, false)
+		CrypkiEndpoints: ips, CrypkiPort: uint(g.Port), Retries: 1, PerTryTimeout: perTry}, false)
 	if err != nil {
 		return vh.Errf("NewSigner: %v", err)
 	}
@@ -55,15 +90,24 @@ func deadlineOne(sc DeadlineScenario) error {
 	ctx, cancel := context.WithTimeout(context.Background(), time.Duration(sc.DeadlineMS)*time.Millisecond)
 	defer cancel()
 	start := time.Now()
+	stopWatch := make(chan struct{})
+	watch := stallWatch(stopWatch)
 	var certs []ssh.PublicKey
 	var serr error
 	if perr := vh.Catch(func() { certs, _, serr = signer.Sign(ctx, req) }); perr != nil {
 		return vh.Errf("Sign crashed: %v", perr)
 	}
 	took := time.Since(start)
-	desc := fmt.Sprintf("endpoints %v, a slow endpoint takes %d ms, caller deadline %d ms (Sign took %s)", sc.Endpoints, sc.SlowMS, sc.DeadlineMS, took.Round(time.Millisecond))
+	close(stopWatch)
+	stall := <-watch
+	desc := fmt.Sprintf("endpoints %v, a slow endpoint takes %d ms, per-try timeout %s, caller deadline %d ms (Sign took %s)", sc.Endpoints, sc.SlowMS, perTry, sc.DeadlineMS, took.Round(time.Millisecond))
 	if took > time.Duration(sc.DeadlineMS)*time.Millisecond*9/10 {
-		return nil // the machine was too slow for this scenario to say anything
+		// the machine was too slow for this scenario to say anything - unless the only waiting in it is
+		// bounded by the per-try timeout (hanging endpoints), the clock ticked all along, and the bound
+		// is a small part of the deadline
+		if hangs == 0 || stall > 2*time.Second || time.Duration(hangs)*perTry*3 > time.Duration(sc.DeadlineMS)*time.Millisecond {
+			return nil
+		}
 	}
 	if signing < 0 {
 		if serr == nil {
@@ -92,9 +136,12 @@ func TestC17Deadline(t *testing.T) {
 		{Endpoints: []string{"slowerr", "slowerr", "sign"}, DeadlineMS: 16000, SlowMS: 3000},
 		{Endpoints: []string{"sign", "slowerr"}, DeadlineMS: 10000, SlowMS: 6000},
 		{Endpoints: []string{"slowerr", "rpcerr"}, DeadlineMS: 12000, SlowMS: 3000},
+		// an endpoint that never answers is given up on after the per-try timeout, long before the caller's deadline
+		{Endpoints: []string{"hang", "sign"}, DeadlineMS: 13000, SlowMS: 40000, PerTryMS: 1500},
+		{Endpoints: []string{"rpcerr", "hang", "hang", "sign"}, DeadlineMS: 15000, SlowMS: 40000, PerTryMS: 1000},
 	}}}
 	vh.Enumerate(t, vh.Spec[DeadlineCase]{Property: "C17", Name: "TestC17Deadline", Exhaustive: true,
-		Rule: "the caller's context carries a deadline of 10..16 s; an endpoint before the signing one reports its error only after 3..7.5 s (more than an equal share of the deadline, far less than the deadline); 5 endpoint lists side by side. Oracle: while the caller's deadline has not passed the endpoints are still tried in order and the first signing endpoint's certificates come back; no signing endpoint => error. A scenario that took more than 90% of its deadline on a slow machine is not judged",
+		Rule: "the caller's context carries a deadline of 10..16 s; an endpoint before the signing one reports its error only after 3..7.5 s (more than an equal share of the deadline, far less than the deadline); or never answers while the per-try timeout is 1..1.5 s (a tenth of the deadline); 7 endpoint lists side by side. Oracle: while the caller's deadline has not passed the endpoints are still tried in order and the first signing endpoint's certificates come back; no signing endpoint => error. A scenario that took more than 90% of its deadline on a slow machine is not judged, except one whose only waits are per-try timeouts adding up to less than a third of the deadline while a 50 ms ticker never stalled for 2 s",
 		Exec: func(c DeadlineCase) (vh.Outcome, error) {
 			out := vh.Outcome{NonTrivial: true}
 			errs := make([]error, len(c.Scenarios))
